@@ -1,0 +1,10 @@
+// Copyright 2021-present The Atlas Authors. All rights reserved.
+// This source code is licensed under the Apache 2.0 license found
+// in the LICENSE file in the root directory of this source tree.
+
+//go:build !verif
+
+package cmdapi
+
+// verifPoint is a no-op unless built with the "verif" tag.
+func verifPoint(string) {}
